@@ -254,6 +254,14 @@ class _AnnotationStringParser(ast.NodeTransformer):
         elif isinstance(value, ast.Attribute) and value.attr == 'Literal':
             # typing.Literal[...] expression; don't unstring the arguments.
             slice = node.slice
+        elif (isinstance(value, ast.Name) and value.id == 'Annotated' or 
+              isinstance(value, ast.Attribute) and value.attr == 'Annotated') and \
+                isinstance(node.slice, ast.Tuple) and node.slice.elts:
+            # Annotated[T, metadata...]; only the first argument is a type, 
+            # the metadata are arbitrary values that must be left alone.
+            slice = ast.copy_location(ast.Tuple(
+                [self.visit(node.slice.elts[0])] + node.slice.elts[1:], 
+                node.slice.ctx), node.slice)
         else:
             # Other subscript; unstring the slice.
             slice = self.visit(node.slice)
